@@ -37,6 +37,23 @@ type r2tEv struct {
 	loop     ast.Stmt
 	pos      token.Pos
 	srcField *types.Var // dynamic: struct field the names are read from (if seen)
+	// membership guards on the written name
+	onlyPresent bool            // written only when the name is already in the table
+	skip        map[string]bool // not written for these names (guard: name ∈ second table → skip)
+	only        map[string]bool // written only for these names
+}
+
+// r2tGuardRes: what the conditions around a write say about the written name.
+type r2tGuardRes struct {
+	override    bool
+	onlyPresent bool
+	cond        string
+	loop        ast.Stmt
+	skip, only  map[string]bool
+}
+
+func (g r2tGuardRes) apply(e *r2tEv) {
+	e.override, e.cond, e.loop, e.onlyPresent, e.skip, e.only = g.override, g.cond, g.loop, g.onlyPresent, g.skip, g.only
 }
 
 type r2tTab struct {
@@ -173,29 +190,57 @@ func (x *r2tPkg) eventsOn(body *ast.BlockStmt, m types.Object, depth int) r2tTab
 		}
 	}
 	isM := func(e ast.Expr) bool { return r2tObj(info, e) == m }
-	// guards of a write: conditions on the stack inside the innermost loop
-	classify := func(stack []mbCondCtx, keyExpr ast.Expr) (override bool, cond string, loop ast.Stmt) {
-		override = true
+	// guards of a write: the conditions around it (enclosing ifs, and the negations of earlier
+	// `if C { continue }` statements of the enclosing loop body)
+	exits, hard := x.exitGuards(body)
+	classify := func(at ast.Stmt, stack []mbCondCtx, keyExpr ast.Expr) (res r2tGuardRes) {
+		res.override = true
 		for _, g := range stack {
 			if g.loop != nil {
-				loop = g.loop
+				res.loop = g.loop
 			}
 		}
-		for _, g := range stack {
+		all := append(append([]mbCondCtx(nil), stack...), exits[at]...)
+		for _, g := range all {
 			switch {
 			case g.loop != nil:
 			case g.cond != nil:
-				if abs, ok := x.absentGuard(stack, g, m, keyExpr); ok {
-					if abs {
-						override = false
-					} else {
-						cond = "only when the name is already present: " + exprStr(g.cond)
-					}
+				if hard[g.cond] {
+					res.cond = "after a conditional break/return: " + exprStr(g.cond)
 					continue
 				}
-				cond = exprStr(g.cond)
+				kind, names, ok := x.memberGuard(body, g, m, keyExpr)
+				if !ok {
+					res.cond = exprStr(g.cond)
+					continue
+				}
+				switch kind {
+				case "absent":
+					res.override = false
+				case "present":
+					res.onlyPresent = true
+				case "notin":
+					if res.skip == nil {
+						res.skip = map[string]bool{}
+					}
+					for n := range names {
+						res.skip[n] = true
+					}
+				case "in":
+					if res.only == nil {
+						res.only = names
+					} else {
+						both := map[string]bool{}
+						for n := range names {
+							if res.only[n] {
+								both[n] = true
+							}
+						}
+						res.only = both
+					}
+				}
 			case g.clause != nil || g.tclause != nil:
-				cond = "switch clause"
+				res.cond = "switch clause"
 			}
 		}
 		return
@@ -252,11 +297,19 @@ func (x *r2tPkg) eventsOn(body *ast.BlockStmt, m types.Object, depth int) r2tTab
 					if !isM(lx.X) {
 						continue
 					}
-					override, cond, loop := classify(stack, lx.Index)
+					gr := classify(st, stack, lx.Index)
+					override, cond := gr.override, gr.cond
+					loop := gr.loop
 					if tv := info.Types[lx.Index]; tv.Value != nil {
-						t.evs = append(t.evs, r2tEv{static: true, key: strings.Trim(tv.Value.ExactString(), `"`), override: override, cond: cond, loop: loop, pos: st.Pos()})
+						ev := r2tEv{static: true, key: strings.Trim(tv.Value.ExactString(), `"`), pos: st.Pos()}
+						gr.apply(&ev)
+						if gr.skip != nil || gr.only != nil {
+							ev.cond = "constant name guarded by membership in a second table"
+						}
+						t.evs = append(t.evs, ev)
 					} else {
-						ev := r2tEv{src: exprStr(lx.Index), override: override, cond: cond, loop: loop, pos: st.Pos()}
+						ev := r2tEv{src: exprStr(lx.Index), pos: st.Pos()}
+						gr.apply(&ev)
 						if rs, ok := loop.(*ast.RangeStmt); ok && rs.Key != nil && r2tSameExpr(info, rs.Key, lx.Index) {
 							// copying a local map literal with constant names: those are builtin names
 							if lit := x.localMapLit(body, rs.X); lit != nil {
@@ -268,7 +321,10 @@ func (x *r2tPkg) eventsOn(body *ast.BlockStmt, m types.Object, depth int) r2tTab
 								}
 								if allStatic {
 									for _, e := range sub.evs {
-										e.override, e.cond, e.pos = override, cond, st.Pos()
+										if gr.skip[e.key] || (gr.only != nil && !gr.only[e.key]) {
+											continue // the guard excludes this constant name
+										}
+										e.override, e.cond, e.pos, e.onlyPresent = override, cond, st.Pos(), gr.onlyPresent
 										t.evs = append(t.evs, e)
 									}
 									continue
@@ -297,7 +353,11 @@ func (x *r2tPkg) eventsOn(body *ast.BlockStmt, m types.Object, depth int) r2tTab
 			if argIdx < 0 {
 				return
 			}
-			override, cond, loop := classify(stack, nil)
+			gr := classify(st, stack, nil)
+			override, cond, loop := gr.override, gr.cond, gr.loop
+			if gr.onlyPresent || gr.skip != nil || gr.only != nil {
+				cond = "bulk write under a membership guard"
+			}
 			if r2tIsBuiltin(info, call, "delete") || r2tIsBuiltin(info, call, "clear") {
 				fail("entries are removed from the table (" + exprStr(call) + ")")
 				return
@@ -391,44 +451,237 @@ func (x *r2tPkg) localMapLit(body *ast.BlockStmt, e ast.Expr) *ast.CompositeLit 
 	return lit
 }
 
-// absentGuard recognises `if _, ok := m[k]; !ok { … }` (abs == true) and its
-// complement (`ok` / else branch: abs == false) for the guard g.
-func (x *r2tPkg) absentGuard(stack []mbCondCtx, g mbCondCtx, m types.Object, keyExpr ast.Expr) (abs bool, ok bool) {
+// exitGuards: for every statement, the conditions of earlier sibling statements
+// `if C { …; continue }` of the enclosing loop bodies (the statement only runs
+// when C was false). hard marks conditions whose branch leaves the loop or the
+// function (break / return / goto): the writes after them are not understood.
+func (x *r2tPkg) exitGuards(body *ast.BlockStmt) (map[ast.Stmt][]mbCondCtx, map[ast.Expr]bool) {
+	out := map[ast.Stmt][]mbCondCtx{}
+	hard := map[ast.Expr]bool{}
+	var walk func(list []ast.Stmt, inherited []mbCondCtx, inLoop bool)
+	var child func(st ast.Stmt, inherited []mbCondCtx, inLoop bool)
+	child = func(st ast.Stmt, inherited []mbCondCtx, inLoop bool) {
+		switch s := st.(type) {
+		case *ast.BlockStmt:
+			walk(s.List, inherited, inLoop)
+		case *ast.LabeledStmt:
+			out[s.Stmt] = inherited
+			child(s.Stmt, inherited, inLoop)
+		case *ast.IfStmt:
+			walk(s.Body.List, inherited, inLoop)
+			if s.Else != nil {
+				out[s.Else] = inherited
+				child(s.Else, inherited, inLoop)
+			}
+		case *ast.ForStmt:
+			walk(s.Body.List, inherited, true)
+		case *ast.RangeStmt:
+			walk(s.Body.List, inherited, true)
+		case *ast.SwitchStmt:
+			for _, c := range s.Body.List {
+				walk(c.(*ast.CaseClause).Body, inherited, false) // break binds to the switch
+			}
+		case *ast.TypeSwitchStmt:
+			for _, c := range s.Body.List {
+				walk(c.(*ast.CaseClause).Body, inherited, false)
+			}
+		}
+	}
+	walk = func(list []ast.Stmt, inherited []mbCondCtx, inLoop bool) {
+		cur := append([]mbCondCtx(nil), inherited...)
+		for _, st := range list {
+			out[st] = append([]mbCondCtx(nil), cur...)
+			child(st, cur, inLoop)
+			ifs, ok := st.(*ast.IfStmt)
+			if !ok || ifs.Else != nil || len(ifs.Body.List) == 0 {
+				continue
+			}
+			switch last := ifs.Body.List[len(ifs.Body.List)-1].(type) {
+			case *ast.BranchStmt:
+				if last.Tok == token.CONTINUE && last.Label == nil && inLoop {
+					cur = append(cur, mbCondCtx{cond: ifs.Cond, neg: true})
+				} else {
+					hard[ifs.Cond] = true
+					cur = append(cur, mbCondCtx{cond: ifs.Cond, neg: true})
+				}
+			case *ast.ReturnStmt:
+				hard[ifs.Cond] = true
+				cur = append(cur, mbCondCtx{cond: ifs.Cond, neg: true})
+			}
+		}
+	}
+	walk(body.List, nil, false)
+	return out, hard
+}
+
+// memberGuard decides what a condition says about the name being written:
+//
+//	"absent"  – the name is not yet in the table m       (`_, ok := m[k]; !ok`, `m[k] == nil`)
+//	"present" – the name is already in m
+//	"in"      – the name is one of the constant names of a second table / list
+//	"notin"   – the name is none of them
+func (x *r2tPkg) memberGuard(body *ast.BlockStmt, g mbCondCtx, m types.Object, keyExpr ast.Expr) (kind string, names map[string]bool, ok bool) {
 	info := x.info
 	cond := ast.Unparen(g.cond)
-	neg := g.neg
-	if u, isU := cond.(*ast.UnaryExpr); isU && u.Op == token.NOT {
-		cond = ast.Unparen(u.X)
-		neg = !neg
+	taken := !g.neg
+	for {
+		if u, isU := cond.(*ast.UnaryExpr); isU && u.Op == token.NOT {
+			cond = ast.Unparen(u.X)
+			taken = !taken
+			continue
+		}
+		break
 	}
-	okObj := r2tObj(info, cond)
-	if okObj == nil {
-		return false, false
+	sameKey := func(k ast.Expr) bool { return keyExpr == nil || r2tSameExpr(info, k, keyExpr) }
+	// the container a membership test consults, and whether `cond` true means "member"
+	var container ast.Expr
+	member := true
+	switch c := cond.(type) {
+	case *ast.Ident:
+		// comma-ok variable: `_, ok := X[K]`
+		okObj := r2tObj(info, c)
+		if okObj == nil {
+			return "", nil, false
+		}
+		ast.Inspect(x.enclosingFile(okObj.Pos()), func(n ast.Node) bool {
+			as, isAs := n.(*ast.AssignStmt)
+			if !isAs || len(as.Lhs) != 2 || len(as.Rhs) != 1 || r2tObj(info, as.Lhs[1]) != okObj {
+				return true
+			}
+			if ix, isIx := ast.Unparen(as.Rhs[0]).(*ast.IndexExpr); isIx && sameKey(ix.Index) {
+				if _, isMap := info.TypeOf(ix.X).Underlying().(*types.Map); isMap {
+					container = ix.X
+				}
+			}
+			return true
+		})
+	case *ast.IndexExpr:
+		// set[K] with a map[string]bool
+		if mt, isMap := info.TypeOf(c.X).Underlying().(*types.Map); isMap && sameKey(c.Index) {
+			if b, isB := mt.Elem().Underlying().(*types.Basic); isB && b.Kind() == types.Bool {
+				container = c.X
+			}
+		}
+	case *ast.BinaryExpr:
+		// X[K] != nil / X[K] == nil
+		if c.Op != token.NEQ && c.Op != token.EQL {
+			return "", nil, false
+		}
+		l, r := ast.Unparen(c.X), ast.Unparen(c.Y)
+		if mbIsNil(info, l) {
+			l, r = r, l
+		}
+		if !mbIsNil(info, r) {
+			return "", nil, false
+		}
+		if ix, isIx := l.(*ast.IndexExpr); isIx && sameKey(ix.Index) {
+			if _, isMap := info.TypeOf(ix.X).Underlying().(*types.Map); isMap {
+				container = ix.X
+				member = c.Op == token.NEQ
+			}
+		}
+	case *ast.CallExpr:
+		// slices.Contains(list, K)
+		if fn := CalleeOf(info, c); fn != nil && fn.Pkg() != nil && strings.HasSuffix(fn.Pkg().Path(), "slices") && fn.Name() == "Contains" && len(c.Args) == 2 && sameKey(c.Args[1]) {
+			container = c.Args[0]
+		}
 	}
-	// the definition of okObj: `_, ok := m[K]`
-	found := false
-	ast.Inspect(x.enclosingFile(okObj.Pos()), func(n ast.Node) bool {
-		as, isAs := n.(*ast.AssignStmt)
-		if !isAs || len(as.Lhs) != 2 || len(as.Rhs) != 1 {
-			return true
-		}
-		if r2tObj(info, as.Lhs[1]) != okObj {
-			return true
-		}
-		ix, isIx := ast.Unparen(as.Rhs[0]).(*ast.IndexExpr)
-		if !isIx || r2tObj(info, ix.X) != m {
-			return true
-		}
-		if keyExpr == nil || r2tSameExpr(info, ix.Index, keyExpr) {
-			found = true
-		}
-		return true
-	})
-	if !found {
-		return false, false
+	if container == nil {
+		return "", nil, false
 	}
-	// cond `ok` taken (neg == false) means present; `!ok` taken means absent
-	return neg, true
+	isMember := taken == member
+	if r2tObj(info, container) == m && m != nil {
+		if isMember {
+			return "present", nil, true
+		}
+		return "absent", nil, true
+	}
+	names = x.constNames(body, container, 0)
+	if names == nil {
+		return "", nil, false
+	}
+	if isMember {
+		return "in", names, true
+	}
+	return "notin", names, true
+}
+
+// constNames: the constant string names a second table / list holds: a local or package-level
+// map/slice literal with constant keys/elements, or a helper returning a table of constant names.
+func (x *r2tPkg) constNames(body *ast.BlockStmt, e ast.Expr, depth int) map[string]bool {
+	info := x.info
+	e = ast.Unparen(e)
+	fromLit := func(cl *ast.CompositeLit) map[string]bool {
+		out := map[string]bool{}
+		for _, el := range cl.Elts {
+			k := el
+			if kv, ok := el.(*ast.KeyValueExpr); ok {
+				k = kv.Key
+			}
+			tv := info.Types[k]
+			if tv.Value == nil {
+				return nil
+			}
+			out[strings.Trim(tv.Value.ExactString(), `"`)] = true
+		}
+		return out
+	}
+	switch v := e.(type) {
+	case *ast.CompositeLit:
+		return fromLit(v)
+	case *ast.CallExpr:
+		if callee := x.calleeDecl(v); callee != nil && depth < 2 {
+			t := x.tableOf(callee, depth+1)
+			if !t.ok {
+				return nil
+			}
+			out := map[string]bool{}
+			for _, ev := range t.evs {
+				if !ev.static {
+					return nil
+				}
+				out[ev.key] = true
+			}
+			return out
+		}
+	case *ast.Ident:
+		if lit := x.localMapLit(body, v); lit != nil {
+			return fromLit(lit)
+		}
+		// package-level variable initialised by a literal and never written
+		obj := r2tObj(info, v)
+		if pv, ok := obj.(*types.Var); ok && pv.Parent() == x.pkg.Types.Scope() {
+			var lit *ast.CompositeLit
+			written := false
+			for _, f := range x.pkg.Syntax {
+				ast.Inspect(f, func(n ast.Node) bool {
+					switch s := n.(type) {
+					case *ast.ValueSpec:
+						for i, nm := range s.Names {
+							if info.Defs[nm] == obj && i < len(s.Values) {
+								lit, _ = ast.Unparen(s.Values[i]).(*ast.CompositeLit)
+							}
+						}
+					case *ast.AssignStmt:
+						for _, l := range s.Lhs {
+							t := ast.Unparen(l)
+							if ix, ok := t.(*ast.IndexExpr); ok {
+								t = ast.Unparen(ix.X)
+							}
+							if r2tObj(info, t) == obj {
+								written = true
+							}
+						}
+					}
+					return true
+				})
+			}
+			if lit != nil && !written {
+				return fromLit(lit)
+			}
+		}
+	}
+	return nil
 }
 
 func (x *r2tPkg) enclosingFile(pos token.Pos) ast.Node {
@@ -476,6 +729,9 @@ func r2tWinners(t r2tTab) (win map[string]string, hasDyn bool, dynDesc string) {
 			if e.static && e.key != k {
 				continue
 			}
+			if !e.static && (e.skip[k] || (e.only != nil && !e.only[k])) {
+				continue // the write is guarded away for this name
+			}
 			who := "own field"
 			if e.static {
 				who = "builtin"
@@ -485,6 +741,9 @@ func r2tWinners(t r2tTab) (win map[string]string, hasDyn bool, dynDesc string) {
 					holder = "?conditional write (" + e.cond + ")"
 				}
 				continue
+			}
+			if e.onlyPresent && holder == "" {
+				continue // nothing to replace
 			}
 			if e.override || holder == "" {
 				if strings.HasPrefix(holder, "?") && !e.override {
@@ -520,6 +779,18 @@ func r2tDescribe(c *Ctx, t r2tTab) string {
 		d := "own fields[" + e.src + " @" + c.Pos(e.pos) + "]"
 		if !e.override {
 			d += "(if absent)"
+		}
+		if e.onlyPresent {
+			d += "(only if present)"
+		}
+		if e.skip != nil {
+			d += "(except " + strings.Join(mbSortedKeys(e.skip), ",") + ")"
+		}
+		if e.only != nil {
+			d += "(only " + strings.Join(mbSortedKeys(e.only), ",") + ")"
+		}
+		if e.cond != "" {
+			d += "(under " + e.cond + ")"
 		}
 		parts = append(parts, d)
 	}
